@@ -6,6 +6,7 @@ private def parseMEv (b : Bytes) : Option MEv :=
   match b with
   | 82 :: p :: n => (natOfDec? n).map fun k => .readOk (p == 49) k      -- R<0|1><n>
   | [69] => some .readErr        -- E
+  | 71 :: k :: n => (natOfDec? n).map fun m => .readDrainFail m (k == 101)   -- G<e|t><n>
   | [70] => some .eof            -- F
   | [68] => some .dispatch       -- D
   | 80 :: n => (natOfDec? n).map .parse   -- P<n>
